@@ -76,9 +76,12 @@ type verifGarbage struct{ hv int16 }
 func (g *verifGarbage) encode(pe packetEncoder) error { return pe.putRawBytes([]byte{0x7f}) }
 func (g *verifGarbage) headerVersion() int16         { return g.hv }
 
-func NewVerifCluster(n int) *VerifCluster {
+func NewVerifCluster(n int) *VerifCluster { return NewVerifClusterBase(n, 1) }
+
+// NewVerifClusterBase: n brokers with ids base, base+1, … (Kafka's customary ids start at 0)
+func NewVerifClusterBase(n int, base int) *VerifCluster {
 	c := &VerifCluster{s: &VerifScript{}}
-	for i := 1; i <= n; i++ {
+	for i := base; i < base+n; i++ {
 		// the machine is shared with other network-heavy harnesses: a momentary failure to get a port is the
 		// environment's, not the code's - wait and try again
 		var ln net.Listener
